@@ -35,7 +35,7 @@ func init() {
 		MinCounters: map[string]map[string]int64{
 			"quick":    {"twin_views_compared": 3000, "wrapped_updates_applied": 1500, "blank_sequences_run": 340, "inner_errors_propagated": 150, "reverse_failures_returned_to_inner": 60,
 				"anon_flatten_values_with_hoisted_struct_unset": 200, "anon_flatten_values_with_hoisted_struct_set": 800, "blank_sequences_with_wrapped_inner_run": 200, "blank_setsource_after_a_refused_watcher": 60},
-			"thorough": {"twin_views_compared": 800000},
+			"thorough": {"twin_views_compared": 600000},
 		},
 		Plan: func(tier string) fw.Plan {
 			if tier == "thorough" {
